@@ -28,6 +28,8 @@ pub struct Client {
     pub sup_map: bool,
     pub redirects: Vec<&'static str>,
     pub consent_prompt: bool,
+    /// also sign with RS256 (the client's "legacy crypto" switch)
+    pub legacy_crypto: bool,
 }
 
 pub const VERIFIER: &str = "dBjftJeZ4CVP-mB92K27uhbUJU1p1r_wW1gFWFOEjXk";
@@ -75,6 +77,9 @@ impl Client {
             if let Some(v) = Value::new_oauthscopemap(Uuid::from_u128(G_SUP), ["supplement".to_string()].into_iter().collect()) {
                 e.add_ava(Attribute::OAuth2RsSupScopeMap, v);
             }
+        }
+        if self.legacy_crypto {
+            e.add_ava(Attribute::OAuth2JwtLegacyCryptoEnable, Value::new_bool(true));
         }
         if self.public {
             e.add_ava(Attribute::OAuth2AllowLocalhostRedirect, Value::new_bool(self.allow_localhost));
